@@ -9,28 +9,29 @@ whole buffer rectangle (`imageBytes` lays them out as the RGBA vector, so equal 
 Fonts (`Nat → Option Font`), the palette (`Nat → Rgb`), the half-block classifier `hb`, the stack, the buffer
 size, `is_terminal_buffer` and `normalize_whitespaces` are universally quantified everywhere.
 
-`FontOk` is what the proof needs from a font (≤ 8 columns, every glyph has `height` data bytes, bit count
-= width·height ⇒ every in-range bit set, the glyph of `' '` blank); `builtin_fonts_ok` discharges it for
+`FontOk` is what the proof needs from a font (every glyph has `height` data bytes, bit count
+= width·height ≠ 0 ⇒ at most 8 columns and every in-range bit set, the glyph of `' '` blank when any glyph is); `builtin_fonts_ok` discharges it for
 every built-in font from the regenerated summaries (`Gen/Fonts.lean`, cross-checked against the compiled
 crate by the harness on every run).
 
-## Full statement and why the proved one is `_partial`
+## The whole-document theorem is now FULL (`optimize_preserves_document`)
 
-The property reads: for every document, `renderDoc (getChar [flatLayer (optimizeDoc S)]) = renderDoc (getChar S)`
-with `FontsOk` as the only hypothesis.  That statement is FALSE for the code as it is — `flat_clone(false)`
-stores the composited cells in an OPAQUE layer, so `Buffer::get_char` of the clone differs from the original at
-  (1) visible composited cells that still carry `TRANSPARENT_COLOR` (no opaque layer beneath them): the clone
-      resolves the colour against a default cell → colour 0 (and a bold cell then renders colour 8), while the
-      original renders RGB black — `transparent_unresolved_changes_picture` (witness);
-  (2) invisible composited cells: the clone shows `AttributedChar::default()` on font page 0, the original
-      renders the `' '` of the lowest covering layer's `default_font_page`; the pictures differ when that font is
-      smaller than font 0 — `invisible_font_page_changes_picture` (witness).
-Both are reproduced on the real code by the harness and recorded in known_findings.txt
-(`flat_clone_resolves_transparent`, `flat_clone_invisible_font_page`).  `optimize_preserves_picture_partial`
-excludes exactly those two sites (`hTr`, `hInv`); `invisible_cell_renders_as_default` shows that `hInv` holds
-whenever the cell's font page has a font at least as large as font 0 (in particular for page 0).
-`FontsOk` itself is needed too (`space_not_blank_changes_picture`, `stray_bits_changes_picture`): it excludes only
-fonts that are not built in. -/
+The property reads: for every document, `renderDoc (getChar [flatLayer (optimizeDoc S)]) = renderDoc (getChar S)` with
+`FontsOk` as the only hypothesis.  On the pinned tree that statement was FALSE at two sites of `Buffer::flat_clone(false)`,
+both reproduced on the real code and both repaired in `flat_clone` (known_findings.txt, `fixed:` lines
+`flat_clone_resolves_transparent`, `flat_clone_invisible_font_page`):
+  (1) the flat clone stored the composited cells in an OPAQUE layer, so a visible composited cell that still carried
+      `TRANSPARENT_COLOR` (no opaque layer beneath it) was resolved against a default cell when read back → colour 0
+      (colour 8 when bold) instead of RGB black.  Repair: the flat layer has an alpha channel, `Buffer::get_char` of the
+      clone returns the pending cell unresolved, exactly as the stack does.
+  (2) an invisible composited cell (non-terminal buffer, only alpha layers there) carries the `default_font_page` p of the
+      lowest covering layer and is rendered with font p, but showed as `AttributedChar::default()` on page 0 in the clone;
+      the pictures differed when font p is smaller than font 0.  Repair: such a cell is stored as a default blank ON PAGE p
+      (`flatStore`), which renders exactly like the invisible cell (`flat_store_renders_same`).
+The model follows the repaired code; the two documents that were the witnesses are now `example`s of the theorem
+(`docT`, `docP`).  `tools/gens/coloropt.py` pins both repaired lines of `flat_clone` (the translator fails if one goes).
+`FontsOk` itself is needed (`space_not_blank_changes_picture`, `stray_bits_changes_picture`): it excludes only
+fonts that are not built in (see Props/C12Fonts.lean for the exact characterisation on loaded fonts). -/
 namespace IcyVerif.C12
 open IcyVerif.Comp IcyVerif.ColorOpt IcyVerif.Gen.Fonts
 
@@ -57,10 +58,11 @@ theorem blank_char_irrelevant (c : Cell) (f : Font) (rows rows' : List Nat) (ch'
     renderCell fonts pal w0 h0 { c with ch := ch' } = renderCell fonts pal w0 h0 c :=
   renderCell_blank fonts pal w0 h0 c _ f rows rows' hfont hg hg' hb hb' hl rfl rfl
 
-/-- A glyph classified `Block` by `get_shape` in a font that is `FontOk` really has no background pixel. -/
+/-- A glyph classified `Block` by `get_shape` in a font that is `FontOk` really has no background pixel (and the font
+    has at most 8 columns, so every rendered column is one of the counted bits). -/
 theorem block_shape_is_full (f : Font) (hf : FontOk f) (ch : Nat) (rows : List Nat)
-    (hg : f.glyph ch = some rows) (hs : shape f rows = .block) : isFull f.w f.h rows = true :=
-  hf.block_full ch rows hg (shape_block hs)
+    (hg : f.glyph ch = some rows) (hs : shape f rows = .block) : f.w ≤ 8 ∧ isFull f.w f.h rows = true :=
+  hf.block_full ch rows hg (shape_block_ne hs) (shape_block hs)
 
 /-- One step of the optimiser, any carried attribute: the cell renders as before. -/
 theorem optimize_cell_preserves_render (norm : Bool) (carry : Attr) (c c' : Cell)
@@ -131,29 +133,58 @@ theorem optimize_preserves_size (norm : Bool) (hb : Cell → Nat × Nat) (isTerm
       obtain ⟨row, hrow, hrl, _⟩ := flatCells_get hb isTerm S (W + 1) H 0 y (Nat.succ_pos W) hy
       rw [(hp y row r hrow hr).1, hrl]
 
-/-- `flat_clone(false)`: what `Buffer::get_char` of the clone returns is `flatView` of the composited cell. -/
+/-- `flat_clone(false)`: `Buffer::get_char` of the clone returns what was stored for the composited cell. -/
 theorem flat_clone_same_cells (hb : Cell → Nat × Nat) (isTerm : Bool) (S : List Layer) (W H x y : Nat)
     (hx : x < W) (hy : y < H) :
-    getChar hb isTerm [flatLayer W H (flatCells hb isTerm S W H)] x y = flatView hb (getChar hb isTerm S x y) := by
+    getChar hb isTerm [flatLayer W H (flatCells hb isTerm S W H)] x y = flatStore (getChar hb isTerm S x y) := by
   obtain ⟨row, hrow, _, hrx⟩ := flatCells_get hb isTerm S W H x y hx hy
-  exact getChar_flatLayer hb isTerm W H _ x y hx hy row _ hrow hrx
+  rw [getChar_flatLayer hb isTerm W H _ x y hx hy row _ hrow hrx]
+  exact flatView_of_visible isTerm (flatStore_visible _)
 
-/-- … which is the composited cell itself when that is visible without transparent colour. -/
-theorem flat_view_id (hb : Cell → Nat × Nat) (c : Cell) (hv : c.isVisible = true) (ht : c.hasTransparentColor = false) :
-    flatView hb c = c := by
-  unfold flatView; rw [hv, ht]; rfl
+/-- … which is the composited cell itself when that is visible (also when it carries a transparent colour). -/
+theorem flat_store_id (c : Cell) (hv : c.isVisible = true) : flatStore c = c := flatStore_of_visible hv
 
-/-- Whole documents, both settings of `normalize_whitespaces`, every stack / size / palette / font table that
-    is `FontsOk`: the optimised buffer renders to the same blocks as the original — except at the two sites
-    named in the header (`hTr`, `hInv`). -/
-theorem optimize_preserves_picture_partial (norm : Bool) (hb : Cell → Nat × Nat) (isTerm : Bool) (S : List Layer)
+/-- An invisible composited cell is exactly `AttributedChar::invisible()` with some font page (C13's walk). -/
+theorem invisible_composite_is_invisible_cell (hb : Cell → Nat × Nat) (isTerm : Bool) (S : List Layer) (x y : Int)
+    (h : (getChar hb isTerm S x y).isVisible = false) : ∃ p, getChar hb isTerm S x y = invisibleCell.withPage p := by
+  rcases getChar_shape hb isTerm S x y with hv | he
+  · rw [hv] at h; cases h
+  · exact he
+
+/-- What the clone stores renders exactly like the composited cell, for every stack and position and for EVERY font
+    table and palette (no font hypothesis: an invisible cell and a default blank on the same page are the same glyph in the
+    same colours). -/
+theorem flat_store_renders_same (hb : Cell → Nat × Nat) (isTerm : Bool) (S : List Layer) (x y : Int) :
+    renderCell fonts pal w0 h0 (flatStore (getChar hb isTerm S x y)) = renderCell fonts pal w0 h0 (getChar hb isTerm S x y) := by
+  rcases getChar_shape hb isTerm S x y with hv | ⟨p, he⟩
+  · rw [flatStore_of_visible hv]
+  · rw [he, flatStore_invisible]
+    exact renderCell_default_invisible fonts pal w0 h0 p
+
+/-- `flat_clone(false)` alone never changes the picture: every stack, size, font table, palette. -/
+theorem flat_clone_preserves_picture (hb : Cell → Nat × Nat) (isTerm : Bool) (S : List Layer) (W H : Nat) :
+    renderDoc fonts pal w0 h0 (fun x y => getChar hb isTerm [flatLayer W H (flatCells hb isTerm S W H)] x y) W H
+      = renderDoc fonts pal w0 h0 (fun x y => getChar hb isTerm S x y) W H := by
+  unfold renderDoc
+  apply List.map_congr_left
+  intro y hy
+  apply List.map_congr_left
+  intro x hx
+  simp only
+  rw [flat_clone_same_cells hb isTerm S W H x y (List.mem_range.mp hx) (List.mem_range.mp hy)]
+  exact flat_store_renders_same fonts pal w0 h0 hb isTerm S x y
+
+/-- **The property, full strength.**  Whole documents — every layer stack (any number of layers, alpha, offsets, hidden,
+    all three modes), every buffer size, both settings of `is_terminal_buffer` and of `normalize_whitespaces`, every
+    palette, every half-block classifier, every font table that is `FontsOk` (all built-in fonts: `builtin_font_ok`),
+    any colours incl. TRANSPARENT_COLOR, any flags (bold): whenever the optimiser returns (`hopt`: no `unwrap()` on a
+    missing font page / glyph, characterised exactly by `optimize_defined_iff`), the optimised buffer renders to the same
+    blocks as the original.  (`ice_mode`, `palette_mode`, `font_mode`, `buffer_type` are copied by `flat_clone` and read
+    neither by the optimiser nor by `render_to_rgba`; the harness varies the ice mode to tie that.) -/
+theorem optimize_preserves_document (norm : Bool) (hb : Cell → Nat × Nat) (isTerm : Bool) (S : List Layer)
     (W H : Nat) (cells' : List (List Cell))
     (hok : FontsOk fonts)
-    (hopt : optimizeDoc fonts norm hb isTerm S W H = some cells')
-    (hTr : ∀ x y : Nat, x < W → y < H → (getChar hb isTerm S x y).isVisible = true →
-      (getChar hb isTerm S x y).hasTransparentColor = false)
-    (hInv : ∀ x y : Nat, x < W → y < H → (getChar hb isTerm S x y).isVisible = false →
-      renderCell fonts pal w0 h0 defaultCell = renderCell fonts pal w0 h0 (getChar hb isTerm S x y)) :
+    (hopt : optimizeDoc fonts norm hb isTerm S W H = some cells') :
     renderDoc fonts pal w0 h0 (fun x y => getChar hb isTerm [flatLayer W H cells'] x y) W H
       = renderDoc fonts pal w0 h0 (fun x y => getChar hb isTerm S x y) W H := by
   have hsize := optimize_preserves_size fonts norm hb isTerm S W H cells' hopt
@@ -188,70 +219,53 @@ theorem optimize_preserves_picture_partial (norm : Bool) (hb : Cell → Nat × N
     obtain ⟨k0, hk0⟩ := (hp y row _ hrow hr').2 x _ _ hrx hc'
     simp only
     rw [getChar_flatLayer hb isTerm W H cs x y hx hy _ _ hr' hc']
-    cases hv : (getChar hb isTerm S x y).isVisible with
-    | true => exact optCell_flatView_render pal w0 h0 hb hok hk0 hv (hTr x y hx hy hv)
-    | false =>
-      rw [flatView_invisible hb (by rw [optCell_isVisible hk0]; exact hv)]
-      exact hInv x y hx hy hv
+    have hv' : c'.isVisible = true := by rw [optCell_isVisible hk0]; exact flatStore_visible _
+    rw [flatView_of_visible isTerm hv', optCell_render pal w0 h0 hok hk0]
+    exact flat_store_renders_same fonts pal w0 h0 hb isTerm S x y
 
-/-- An invisible composited cell is exactly `AttributedChar::invisible()` with some font page (C13's walk). -/
-theorem invisible_composite_is_invisible_cell (hb : Cell → Nat × Nat) (isTerm : Bool) (S : List Layer) (x y : Int)
-    (h : (getChar hb isTerm S x y).isVisible = false) : ∃ p, getChar hb isTerm S x y = invisibleCell.withPage p := by
-  rcases getChar_shape hb isTerm S x y with hv | he
-  · rw [hv] at h; cases h
-  · exact he
-
-/-- the font of page `p` paints the same region as font 0 and both have a glyph for `' '` -/
-def PageLikeZero (fonts : Nat → Option Font) (w0 h0 p : Nat) : Prop :=
-  ∃ f f0 rows rows0, fonts p = some f ∧ fonts 0 = some f0 ∧ f.glyph spaceCh = some rows ∧
-    f0.glyph spaceCh = some rows0 ∧ min f.w w0 = min f0.w w0 ∧ min f.h h0 = min f0.h h0
-
-/-- `hInv` holds for `invisible()` on a font page whose font is at least as large as font 0 (e.g. page 0). -/
-theorem invisible_cell_renders_as_default (hok : FontsOk fonts) (p : Nat) (hp : PageLikeZero fonts w0 h0 p) :
-    renderCell fonts pal w0 h0 defaultCell = renderCell fonts pal w0 h0 (invisibleCell.withPage p) := by
-  obtain ⟨f, f0, rows, rows0, hf, hf0, hg, hg0, hw, hh⟩ := hp
-  have hfo := hok _ _ hf
-  have hfo0 := hok _ _ hf0
-  have e1 : renderCell fonts pal w0 h0 defaultCell = renderGlyph w0 h0 f0 rows0 (pal 7) (pal 0) := by
-    unfold renderCell
-    have : defaultCell.attr.page = 0 := rfl
-    rw [this, hf0]
-    have : defaultCell.ch = spaceCh := rfl
-    simp only [this, hg0]
-    rfl
-  have e2 : renderCell fonts pal w0 h0 (invisibleCell.withPage p) = renderGlyph w0 h0 f rows (pal 7) (pal 0) := by
-    unfold renderCell
-    have : (invisibleCell.withPage p).attr.page = p := rfl
-    rw [this, hf]
-    have : (invisibleCell.withPage p).ch = spaceCh := rfl
-    simp only [this, hg]
-    have hfg : renderFg (invisibleCell.withPage p) = 7 := by
-      have h1 : renderFg (invisibleCell.withPage p) = renderFg invisibleCell := rfl
-      rw [h1]; decide
-    have hbg : (invisibleCell.withPage p).attr.bg = 0 := rfl
-    rw [hfg, hbg]
-  rw [e1, e2]
-  exact renderGlyph_blank2 w0 h0 f0 f rows0 rows _ _ _ (hfo0.space_blank _ hg0) (hfo.space_blank _ hg)
-    (by rw [hfo0.rows_len _ _ hg0]; exact Nat.le_refl _) (by rw [hfo.rows_len _ _ hg]; exact Nat.le_refl _)
-    hw.symm hh.symm hfo0.width_le
-
-/-- `optimize_preserves_picture_partial` with the second exclusion spelled out structurally: every font page
-    that an invisible composited cell carries has a font painting the same region as font 0. -/
-theorem optimize_preserves_picture_partial_fonts (norm : Bool) (hb : Cell → Nat × Nat) (isTerm : Bool) (S : List Layer)
-    (W H : Nat) (cells' : List (List Cell))
-    (hok : FontsOk fonts)
-    (hopt : optimizeDoc fonts norm hb isTerm S W H = some cells')
-    (hTr : ∀ x y : Nat, x < W → y < H → (getChar hb isTerm S x y).isVisible = true →
-      (getChar hb isTerm S x y).hasTransparentColor = false)
-    (hPg : ∀ (x y : Nat) (p : Nat), x < W → y < H → getChar hb isTerm S x y = invisibleCell.withPage p →
-      PageLikeZero fonts w0 h0 p) :
-    renderDoc fonts pal w0 h0 (fun x y => getChar hb isTerm [flatLayer W H cells'] x y) W H
-      = renderDoc fonts pal w0 h0 (fun x y => getChar hb isTerm S x y) W H := by
-  apply optimize_preserves_picture_partial fonts pal w0 h0 norm hb isTerm S W H cells' hok hopt hTr
-  intro x y hx hy hv
-  obtain ⟨p, hp⟩ := invisible_composite_is_invisible_cell hb isTerm S x y hv
-  rw [hp]
-  exact invisible_cell_renders_as_default fonts pal w0 h0 hok p (hPg x y p hx hy hp)
+/-- The optimiser returns (neither `unwrap()` panics) exactly when every composited cell of the buffer rectangle names a
+    font page of the table and a code point of that font. -/
+theorem optimize_defined_iff (norm : Bool) (hb : Cell → Nat × Nat) (isTerm : Bool) (S : List Layer) (W H : Nat) :
+    (∃ cells', optimizeDoc fonts norm hb isTerm S W H = some cells') ↔
+      ∀ x y : Nat, x < W → y < H → HasGlyph fonts (getChar hb isTerm S x y) := by
+  have hstore : ∀ x y : Nat, HasGlyph fonts (flatStore (getChar hb isTerm S x y)) ↔ HasGlyph fonts (getChar hb isTerm S x y) := by
+    intro x y
+    rcases getChar_shape hb isTerm S x y with hv | ⟨p, he⟩
+    · rw [flatStore_of_visible hv]
+    · rw [he, flatStore_invisible]; exact Iff.rfl
+  have hdoc : (∃ cells', optimizeDoc fonts norm hb isTerm S W H = some cells') ↔
+      ∃ p, optimizeRows fonts norm defaultCell.attr (flatCells hb isTerm S W H) = some p := by
+    unfold optimizeDoc
+    constructor
+    · rintro ⟨c, h⟩
+      cases ho : optimizeRows fonts norm defaultCell.attr (flatCells hb isTerm S W H) with
+      | none => rw [ho] at h; cases h
+      | some p => exact ⟨p, rfl⟩
+    · rintro ⟨p, h⟩; rw [h]; exact ⟨_, rfl⟩
+  rw [hdoc, optimizeRows_defined_iff]
+  constructor
+  · intro h x y hx hy
+    obtain ⟨row, hrow, _, hrx⟩ := flatCells_get hb isTerm S W H x y hx hy
+    exact (hstore x y).mp (h y row x _ hrow hrx)
+  · intro h y row x c hrow hc
+    have hy : y < H := by
+      have := (List.getElem?_eq_some_iff.mp hrow).1
+      rw [flatCells_length] at this; exact this
+    have hxW : x < W := by
+      by_cases hW : W = 0
+      · subst hW
+        have : (flatCells hb isTerm S 0 H)[y]? = some [] := by
+          unfold flatCells
+          rw [List.getElem?_map, List.getElem?_range hy]; rfl
+        rw [this] at hrow; cases hrow; simp at hc
+      · obtain ⟨row0, hrow0, hrl, _⟩ := flatCells_get hb isTerm S W H 0 y (Nat.pos_of_ne_zero hW) hy
+        rw [hrow0] at hrow; cases hrow
+        have := (List.getElem?_eq_some_iff.mp hc).1
+        rw [hrl] at this; exact this
+    obtain ⟨row', hrow', _, hrx⟩ := flatCells_get hb isTerm S W H x y hxW hy
+    rw [hrow'] at hrow; cases hrow
+    rw [hrx] at hc; cases hc
+    exact (hstore x y).mpr (h x y hxW hy)
 
 /-- equal blocks = equal RGBA bytes (and equal panic behaviour) -/
 theorem same_blocks_same_bytes (a b : List (List (List (List Px)))) (h : a = b) (hh : Nat) :
@@ -266,8 +280,21 @@ theorem builtin_fonts_ok : allFonts.all SummaryOk = true := by decide +kernel
 theorem builtin_font_ok (f : Font) (s : FontSum) (hs : s ∈ allFonts) (hsum : Summarizes f s) : FontOk f :=
   fontOk_of_summary hsum ((List.all_eq_true.mp builtin_fonts_ok) s hs)
 
-/-! ## the two excluded sites are real: witnesses (by evaluation of the model; the harness replays the same
-documents on the implementation, see known_findings.txt) -/
+/-- **The property on its quantifier**: every font slot holds a built-in font (its per-glyph summary is one of the
+    regenerated ones, which the harness cross-checks against the compiled crate on every run). -/
+theorem optimize_preserves_document_builtin (norm : Bool) (hb : Cell → Nat × Nat) (isTerm : Bool) (S : List Layer)
+    (W H : Nat) (cells' : List (List Cell))
+    (hbuiltin : ∀ p f, fonts p = some f → ∃ s ∈ allFonts, Summarizes f s)
+    (hopt : optimizeDoc fonts norm hb isTerm S W H = some cells') :
+    renderDoc fonts pal w0 h0 (fun x y => getChar hb isTerm [flatLayer W H cells'] x y) W H
+      = renderDoc fonts pal w0 h0 (fun x y => getChar hb isTerm S x y) W H := by
+  apply optimize_preserves_document fonts pal w0 h0 norm hb isTerm S W H cells' _ hopt
+  intro p f hf
+  obtain ⟨s, hs, hsum⟩ := hbuiltin p f hf
+  exact builtin_font_ok f s hs hsum
+
+/-! ## the two documents that violated the property on the pinned tree (now instances of the theorem), and the
+witnesses that `FontsOk` cannot be dropped -/
 section witnesses
 open IcyVerif.Gen.Comp
 
@@ -285,26 +312,26 @@ def hbW : Cell → Nat × Nat := fun c => (c.attr.bg, c.attr.bg)
 /-- one alpha layer, a bold `'A'` whose foreground is TRANSPARENT_COLOR (= RGB black), nothing beneath -/
 def docT : List Layer := [⟨true, true, .normal, 0, 0, 1, 1, 0, [[⟨65, ⟨transparentColor, 1, 1, 0⟩⟩]]⟩]
 
-/-- (1) the flat clone resolves the transparent foreground to colour 0, bold makes it colour 8: grey, not black -/
-theorem transparent_unresolved_changes_picture :
+-- (1) before the repair the clone resolved the foreground to colour 0 and bold made it colour 8 (grey, not black);
+-- now the cell is read back unresolved and the picture is the same
+example :
     optimizeDoc fontsW false hbW false docT 1 1 = some [[⟨65, ⟨transparentColor, 1, 1, 0⟩⟩]] ∧
+    getChar hbW false [flatLayer 1 1 [[⟨65, ⟨transparentColor, 1, 1, 0⟩⟩]]] 0 0 = ⟨65, ⟨transparentColor, 1, 1, 0⟩⟩ ∧
     renderDoc fontsW palW 8 2 (fun x y => getChar hbW false [flatLayer 1 1 [[⟨65, ⟨transparentColor, 1, 1, 0⟩⟩]]] x y) 1 1
-      ≠ renderDoc fontsW palW 8 2 (fun x y => getChar hbW false docT x y) 1 1 := by
-  constructor
-  · decide +kernel
-  · decide +kernel
+      = renderDoc fontsW palW 8 2 (fun x y => getChar hbW false docT x y) 1 1 := by
+  refine ⟨?_, ?_, ?_⟩ <;> decide +kernel
 
 /-- one empty alpha layer whose `default_font_page` is 1 (font 8x1), font 0 is 8x2 -/
 def docP : List Layer := [⟨true, true, .normal, 0, 0, 1, 1, 1, []⟩]
 
-/-- (2) the original leaves the second pixel row of the invisible cell unwritten, the optimised buffer paints it -/
-theorem invisible_font_page_changes_picture :
-    optimizeDoc fontsW false hbW false docP 1 1 = some [[invisibleCell.withPage 1]] ∧
-    renderDoc fontsW palW 8 2 (fun x y => getChar hbW false [flatLayer 1 1 [[invisibleCell.withPage 1]]] x y) 1 1
-      ≠ renderDoc fontsW palW 8 2 (fun x y => getChar hbW false docP x y) 1 1 := by
-  constructor
-  · decide +kernel
-  · decide +kernel
+-- (2) before the repair the clone painted the second pixel row of the invisible cell (font 0 instead of font 1);
+-- now the cell is stored as a default blank on page 1 and the second row stays unwritten in both pictures
+example :
+    getChar hbW false docP 0 0 = invisibleCell.withPage 1 ∧
+    optimizeDoc fontsW false hbW false docP 1 1 = some [[defaultCell.withPage 1]] ∧
+    renderDoc fontsW palW 8 2 (fun x y => getChar hbW false [flatLayer 1 1 [[defaultCell.withPage 1]]] x y) 1 1
+      = renderDoc fontsW palW 8 2 (fun x y => getChar hbW false docP x y) 1 1 := by
+  refine ⟨?_, ?_, ?_⟩ <;> decide +kernel
 
 /-! `FontOk` cannot be dropped either (fonts that are NOT built in; recorded as findings
 `custom_font_space_not_blank`, `custom_font_stray_bits`): -/
@@ -343,7 +370,7 @@ end witnesses
 /-! ## non-vacuity -/
 section nonvacuity
 theorem fA_ok : FontOk fA := by
-  refine ⟨by decide, ?_, ?_, ?_⟩
+  refine ⟨?_, ?_, ?_⟩
   · intro ch rows h
     unfold fA at h
     simp only at h
@@ -364,7 +391,7 @@ theorem fA_ok : FontOk fA := by
       · split at h
         · cases h; decide
         · cases h
-  · intro rows h
+  · intro _ _ rows _ _ h
     have : fA.glyph spaceCh = some [0, 0] := by decide
     rw [this] at h; cases h; decide
 
@@ -387,12 +414,9 @@ example : optimizeDoc fontsN true hbW false docN 3 1 =
 example : renderDoc fontsN palW 8 2 (fun x y => getChar hbW false
       [flatLayer 3 1 [[⟨65, ⟨3, 1, 0, 0⟩⟩, ⟨32, ⟨3, 2, 1, 0⟩⟩, ⟨219, ⟨4, 2, 0, 0⟩⟩]]] x y) 3 1
     = renderDoc fontsN palW 8 2 (fun x y => getChar hbW false docN x y) 3 1 := by decide +kernel
--- the two exclusions hold for this document
-example : ∀ x : Nat, x < 3 → ∀ y : Nat, y < 1 → (getChar hbW false docN x y).isVisible = true →
-    (getChar hbW false docN x y).hasTransparentColor = false := by decide +kernel
-example : ∀ x : Nat, x < 3 → ∀ y : Nat, y < 1 → (getChar hbW false docN x y).isVisible = false →
-    renderCell fontsN palW 8 2 defaultCell = renderCell fontsN palW 8 2 (getChar hbW false docN x y) := by
-  decide +kernel
+-- the hypothesis `hopt` of the theorem is characterised by `optimize_defined_iff`: here every cell has its glyph
+example : ∀ x : Nat, x < 3 → ∀ y : Nat, y < 1 →
+    (fontsN (getChar hbW false docN x y).attr.page).isSome = true := by decide +kernel
 -- a summary in the regenerated table, its check, and a blank / full glyph of the default font
 example : 0 < allFonts.length ∧ SummaryOk f_cp437 = true ∧ f_cp437.ones[32]? = some 0 ∧
     f_cp437.ones[219]? = some 128 ∧ f_cp437.full[219]? = some 1 := by decide +kernel
